@@ -89,7 +89,7 @@ class World:
         self.g = w.mkgroup("g")
         self.node = w.mknode(base, "n", self.g, stype="F")
         self.acq = w.ArchiveAcq.create(name="acq")
-        (pathlib.Path(self.node.root) / "acq").mkdir()
+        (pathlib.Path(self.node.root) / "acq").mkdir(exist_ok=True)
         self.io = DefaultNodeIO(self.node, {}, FairMultiFIFOQueue())
         self.k = 0
 
@@ -233,6 +233,10 @@ def explore_checks(ctx, wd, sizes, per_size):
             reg_size = rng.choice([sz, sz, sz, None, 0, sz + 1, max(0, sz - 1)]) if j >= 2 else [sz, None][j]
             reg_md5 = rng.choice([true, true, true, hashlib.md5(content + b"x").hexdigest(), None]) if j >= 2 else true
             stat_fail = rng.random() < 0.05 and j > 3
+            if j >= per_size - 3:
+                # fixed boundary cases for every size: an intact file whose digest matches against a registered size of 0, size + 1 and size - 1
+                kind, reg_md5, stat_fail = "none", true, False
+                reg_size = [0, sz + 1, max(0, sz - 1)][per_size - 1 - j]
             wd.k += 1
             name = f"c{wd.k}"
             w.ArchiveFile.create(acq=wd.acq, name=name, size_b=reg_size, md5sum=reg_md5)
@@ -371,7 +375,7 @@ def explore(ctx):
 
 
 def search(ctx):
-    wd = World(ctx.tmp())
+    wd = World(ctx.tmp() / "search")
     explore_digests(ctx, wd, 4000)
     if not ctx.failing:
         explore_checks(ctx, wd, [0, 1, 2, 100, 32768], 200)
